@@ -74,7 +74,7 @@ CHECKS = {
     ),
     "C06": dict(
         text="Inductive single step over the sqlite commit machinery: symbolic counter, symbolic number of buffered elementary writes (<= counter <= 50), symbolic age of the last flush and symbolic clock readings; every operation kind in lazy and eager mode. z3 decides that bucket operations and reads leave nothing buffered, that after any event write buffered writes <= counter <= 50, that single-event / bucket operations are not split by a commit, and that eager mode leaves nothing buffered. The crash image is the model's committed snapshot.",
-        note="TRUSTED and not verified: SQLite's atomic commit / rollback of everything since the last COMMIT on process death (the 'prefix in issue order' half of the property rests on it). Native validation observes the file through a second real connection. Includes rejected bucket operations (no rollback of buffered writes). Peewee commits per statement by construction (isolation_level=None), observed in the stub but not asserted separately.",
+        note="TRUSTED and not verified: SQLite's atomic commit / rollback of everything since the last COMMIT on process death (the 'prefix in issue order' half of the property rests on it). Native validation observes the file through a second real connection. Includes rejected bucket operations (no rollback of buffered writes). Peewee (auto-commit): asserted per operation that nothing stays buffered, the committed image equals the working tables and no BEGIN/ROLLBACK is issued.",
         ref="§5.2, §7 C06",
     ),
     "C18": dict(
@@ -84,7 +84,7 @@ CHECKS = {
     ),
     "C01": dict(
         text="(a) exact arithmetic: an event with an arbitrary microsecond instant, symbolic UTC offset, duration and pooled JSON data is inserted (single / bulk) into memory and sqlite (SQL through the sqlite3 model) and z3 decides that listing and lookup return it with a unique id, instant floored to ms, duration and data equal; (b) ownership: every alias handed in or out (event, nested data, timestamp, duration, id, metadata dicts) is mutated and a second read must equal the first; (c) IEEE lemma: the real insert_one -> REAL/INTEGER cells -> _rows_to_events float pipeline is executed under the rounded-real encoding of double arithmetic for every millisecond instant and every microsecond duration, split into range pieces with a single binade per rounding: instant exact to the ms and duration exact to the us.",
-        note="Trusted: z3, the sqlite3 model (dual-run conformance), CPython's documented float algorithms. IEEE lemma: instants 2000..2099 (quick) / 1970..2099 (thorough) x durations 0..30 d; exact ties are over-approximated and candidates are confirmed natively (up to 12 re-sampled models). Peewee's float chain (total_seconds -> REAL -> Decimal(str) -> float -> timedelta) is C13's json-duration lemma; peewee is exercised through the sqlite3 model in C02-C07, not in this check.",
+        note="Trusted: z3, the sqlite3 model (dual-run conformance), CPython's documented float algorithms. IEEE lemma: instants 2000..2099 (quick) / 1970..2099 (thorough) x durations 0..30 d; exact ties are over-approximated and candidates are confirmed natively (up to 12 re-sampled models). Memory, sqlite and peewee for (a) and (b); peewee's float chain (total_seconds -> REAL -> Decimal(str) -> float -> timedelta) is C13's json-duration lemma and its TEXT timestamps round-trip through iso8601 (contract stub).",
         ref="§4, §7 C01",
     ),
     "C05": dict(
@@ -99,7 +99,7 @@ CHECKS = {
     ),
     "C12": dict(
         text="27 query programs (every registered built-in, including the in-place transforms, and six programs that raise midway) run through the real query() over a store with symbolic event instants and a symbolic query window (each edge with its own UTC offset); z3 decides that the table-level dump and metadata of every bucket are identical afterwards whether the query returned or raised, and that query_bucket / query_bucket_eventcount equal a direct windowed Bucket.get / get_eventcount for the same symbolic window.",
-        note="As C02 plus the transform stubs of C08/C10/C16; STARTTIME/ENDTIME travel as opaque ISO text (iso8601 stubbed by contract). Program texts are concrete here. Memory and sqlite backends.",
+        note="As C02 plus the transform stubs of C08/C10/C16; STARTTIME/ENDTIME travel as opaque ISO text (iso8601 stubbed by contract). Program texts are concrete here. Memory, sqlite and peewee backends.",
         ref="§7 C12",
     ),
     "C14": dict(
